@@ -9,7 +9,7 @@ B=$(rustc +nightly --print sysroot)/lib/rustlib/x86_64-unknown-linux-gnu/bin
 mkdir -p $S/prof $S/work
 trap 'rm -rf $S' EXIT
 cd /verif/harness || exit 2
-CARGO_NET_OFFLINE=true CARGO_TARGET_DIR=$S/target RUSTFLAGS="-Cinstrument-coverage" cargo +nightly build --release -q 2>/dev/null || exit 2
+LLVM_PROFILE_FILE=$S/build-%p.profraw CARGO_NET_OFFLINE=true CARGO_TARGET_DIR=$S/target RUSTFLAGS="-Cinstrument-coverage" cargo +nightly build --release -q 2>/dev/null || exit 2
 cat > $S/run.sh <<EOS
 #!/bin/bash
 cd /verif/harness
